@@ -70,8 +70,8 @@ func main() {
 		}
 	} else {
 		runs = []run{
-			{hist.TestFam{WithDir: true, WithBin: true, WithNoop: true, WithRm: true}, 3, false},
-			{hist.TestFam{WithDir: true, WithBin: true, WithNoop: true, WithRm: true}, 3, true},
+			{hist.TestFam{WithDir: true, WithBin: true, WithNoop: true, WithRm: true}, 4, false},
+			{hist.TestFam{WithDir: true, WithBin: true, WithNoop: true, WithRm: true}, 4, true},
 		}
 	}
 	if r.Replay != "" {
